@@ -157,7 +157,13 @@ def oracle(case, impl):
         return [("crash", "wrapper operation crashed: " + impl[:200])]
     i = parts.index("counts")
     res = [int(x) for x in parts[:i]]
-    counts = [int(x) for x in parts[i + 1:]]
+    j = parts.index("owns") if "owns" in parts else len(parts)
+    counts = [int(x) for x in parts[i + 1:j]]
+    owns = {}
+    while j < len(parts):
+        k, n = int(parts[j + 1]), int(parts[j + 2])
+        owns[k] = [int(x) for x in parts[j + 3:j + 3 + n]]
+        j += 3 + n
     out = []
     if any(c > 1 for c in counts):
         out.append(("double-close", "an underlying resource was closed %d times: %s" % (max(counts), case["line"][:300])))
@@ -179,7 +185,18 @@ def oracle(case, impl):
                 out.append(("status-false-after-close", "Closed() false after Close: " + case["line"][:300]))
             if not closed_objs and r != 0:
                 out.append(("status-true-before-close", "Closed() true before any Close: " + case["line"][:300]))
+    # a Close on a wrapper closes every raw resource underneath it (whatever else was closed before, through whichever object)
+    for k in closed_objs:
+        left = [r for r in owns.get(k, []) if r < len(counts) and counts[r] == 0]
+        if left:
+            out.append(("not-closed", "object %d was closed but raw resource(s) %r underneath it never were: %s" % (k, left, case["line"][:300])))
+            break
     return out
+
+
+def agree(case, impl, model):
+    cut = lambda s: s[:s.index(" owns ")] if " owns " in s else s
+    return None if cut(impl) == cut(model) else "close-counts"
 
 
 def shrink(case):
